@@ -747,6 +747,12 @@ class Extractor:
                     return ('list', ('tuple', [T_ext('int'), self.elem(argtypes[0])]))
                 if n == 'zip':
                     return ('list', ('tuple', [self.elem(a) for a in argtypes]))
+                if n in ('max', 'min', 'next') and len(argtypes) == 1:
+                    return self.elem(argtypes[0])
+                if n in ('filter',) and len(argtypes) == 2:
+                    return argtypes[1]
+                if n in ('getattr', 'next', 'iter', 'map', 'max', 'min', 'filter', 'type', 'object'):
+                    return None          # could be anything: a bobocep method called on it is refused
                 return T_ext(n)
             if self.mod_imports[ctx['module']].get(n) == 'ext':
                 return T_ext(n)      # e.g. RLock(), Queue(), Thread(), time(), dumps(), get_random_bytes()
